@@ -146,7 +146,7 @@ CLAIMED.update({
         text=("Player.tla specifies playback as per-track cursors with Send enabled only for a head of minimal scheduled time (ties free), Skip for non-playable events, the port map rule and "
               "never-early; TLC checks on the model that every behaviour is a stable merge sending each channel message exactly once, and that the trace acceptor accepts exactly those. Real plays "
               "(files with >=13 events per tick, 1-6 tracks, duplicate messages across tracks, all selections and port maps) are recorded through fake out ports and TLC decides whether each "
-              "observed send sequence is explainable, inferring the unlogged source track of every send."),
+              "observed send sequence is explainable, inferring the unlogged source track of every send; one play of 140 000 (thorough: 262 144) distinguishable events per run is judged without search by Player!AttrLin, which TLC shows equal to the text of the property on every model behaviour and on corrupted copies."),
         note="Only the lower bound of send instants is judged (load cannot cause an alarm). Scheduled times are the library's own (their correctness is C11). Sysex may be sent or skipped.",
         technique="TLA+ player model checked by TLC; TLC trace validation with inference of unlogged nondeterminism",
         ref="DESIGN.md section 4 C12"),
